@@ -111,7 +111,7 @@ Definition core_eff (c : cfg) (m : obs) (o : srv_op) (r : srv_out) (i : nat) (x 
            | _ => x
            end
   | OpOut cid n, OBytes (opc :: lo :: hi :: _) =>
-      if Nat.eqb cid i && (opc =? 29) && is_some (by_value_handle (ob_tab m) (lo + 256 * hi)) then (mtu, enc, true) else x
+      if Nat.eqb cid i && (opc =? 29) then (mtu, enc, true) else x
   | OpSec cid e _, _ => if Nat.eqb cid i then (mtu, e, out) else x
   | OpDisc cid, _ => if Nat.eqb cid i then (default_att_mtu, false, false) else x
   | _, _ => x
@@ -225,6 +225,8 @@ Qed.
 
 Lemma keeps_adv_sent_notif m cid g : keeps m (adv_sent m cid g KNotif).
 Proof. unfold adv_sent. apply keeps_set_oc. reflexivity. Qed.
+Lemma keeps_adv_sent_unknown_notif m cid : keeps m (adv_sent_unknown m cid KNotif).
+Proof. unfold adv_sent_unknown. apply keeps_set_oc. reflexivity. Qed.
 
 Lemma follows_out c m cid n pdu : follows c m (OpOut cid n) (OBytes pdu) (advance c m (OpOut cid n) (OBytes pdu)).
 Proof.
@@ -234,15 +236,18 @@ Proof.
     destruct (_ <? 3); [apply keeps_set_oc; reflexivity|]. destruct (eligible_must _); [apply keeps_set_oc; reflexivity|apply keeps_refl].
   - apply keeps_follows; [apply keeps_refl|intros i [[? ?] ?]; reflexivity].
   - apply keeps_follows; [apply keeps_refl|intros i [[? ?] ?]; reflexivity].
-  - destruct (by_value_handle (ob_tab m) (lo + 256 * hi)) as [g|] eqn:B.
-    + destruct (opc =? 27) eqn:E27.
-      * apply keeps_follows; [apply keeps_adv_sent_notif|]. intros i [[? ?] ?]. cbn [core_eff].
-        apply N.eqb_eq in E27. subst opc. change (27 =? 29) with false. rewrite andb_false_r. reflexivity.
-      * destruct (opc =? 29) eqn:E29.
-        -- unfold adv_sent. apply follows_set_oc. intros i Hi. unfold core at 2. cbn [core_eff]. rewrite E29, B. cbn [is_some andb].
-           rewrite andb_true_r. destruct (Nat.eqb cid i) eqn:E; [|reflexivity]. apply Nat.eqb_eq in E. subst i. reflexivity.
-        -- apply keeps_follows; [apply keeps_refl|]. intros i [[? ?] ?]. cbn [core_eff]. rewrite E29, andb_false_r. reflexivity.
-    + apply keeps_follows; [apply keeps_refl|]. intros i [[? ?] ?]. cbn [core_eff]. rewrite B. cbn [is_some]. rewrite andb_false_r. reflexivity.
+  - destruct (opc =? 27) eqn:E27.
+    + apply keeps_follows.
+      * destruct (by_value_handle _ _); [apply keeps_adv_sent_notif|apply keeps_adv_sent_unknown_notif].
+      * intros i [[? ?] ?]. cbn [core_eff]. apply N.eqb_eq in E27. subst opc. change (27 =? 29) with false. rewrite andb_false_r. reflexivity.
+    + destruct (opc =? 29) eqn:E29.
+      * assert (F : forall k', o_mtu k' = o_mtu (oc_at m cid) -> o_enc k' = o_enc (oc_at m cid) -> o_out k' = true ->
+                    follows c m (OpOut cid n) (OBytes (opc :: lo :: hi :: t)) (set_oc m cid k')).
+        { intros k' A B C. apply follows_set_oc. intros i Hi. unfold core at 2. cbn [core_eff]. rewrite E29, andb_true_r.
+          destruct (Nat.eqb cid i) eqn:E; [|reflexivity]. apply Nat.eqb_eq in E. subst i. unfold core. rewrite A, B, C. reflexivity. }
+        destruct (by_value_handle _ _); [unfold adv_sent|unfold adv_sent_unknown]; apply F; reflexivity.
+      * apply keeps_follows; [destruct (by_value_handle _ _); apply keeps_refl|].
+        intros i [[? ?] ?]. cbn [core_eff]. rewrite E29, andb_false_r. reflexivity.
 Qed.
 
 Theorem advance_follows c m o r : follows c m o r (advance c m o r).
